@@ -2,6 +2,7 @@ package yqlib
 
 import (
 	"container/list"
+	"fmt"
 )
 
 /*
@@ -34,6 +35,10 @@ func collectObjectOperator(d *dataTreeNavigator, originalContext Context, _ *Exp
 
 	for el := context.MatchingNodes.Front(); el != nil; el = el.Next() {
 		candidateNode := el.Value.(*CandidateNode)
+
+		if len(candidateNode.Content) < len(first.Content) {
+			return Context{}, fmt.Errorf("cannot build an object: an entry yields %v key/value nodes where the first one yields %v (is an entry missing its ': value'?)", len(candidateNode.Content), len(first.Content))
+		}
 
 		for i := 0; i < len(first.Content); i++ {
 			log.Debugf("rotate[%v] = %v", i, NodeToString(candidateNode.Content[i]))
